@@ -132,7 +132,7 @@ def link_layer_bench():
                 "trained": dut.trained, "ready": dut.ready, "in_reset": dut.in_reset,
                 "perform_rx_detection": phy.perform_rx_detection, "send_lfps_polling": phy.send_lfps_polling,
                 "train_equalizer": phy.train_equalizer, "tx_electrical_idle": phy.tx_electrical_idle,
-                "queue_valid": dut.header_source.valid}
+                "queue_valid": dut.header_source.valid, "can_send_skp": phy.can_send_skp}
         for f in HDR_FIELDS:
             outs["q_" + f] = getattr(dut.header_source.header, f)
         return make_bench(frag, clocks={"ss": 1 / 125e6}, main="ss", ins=ins, outs=outs)
